@@ -27,13 +27,21 @@ def finite_refute(hyps, goal, axioms=(), sizes=(2, 3, 4), timeout_ms=10000, sort
         # decided by the command-line binary under a hard wall-clock limit (z3 handles quantifiers over the finite
         # enumeration by MBQI; in-process calls were seen to overrun their timeout)
         import subprocess, tempfile, os
-        secs = max(1, int(timeout_ms / 1000))
+        from . import budget
+        secs = max(1, int(budget.wall_ms(timeout_ms, "finite") / 1000))
         with tempfile.NamedTemporaryFile("w", suffix=".smt2", delete=False, dir=os.environ.get("TMPDIR", "/tmp")) as f:
             f.write(txt + "\n(check-sat)\n(get-model)\n")
             path = f.name
         try:
-            p = subprocess.run(["z3-new", f"-T:{secs}", path], capture_output=True, text=True, timeout=secs + 5)
+            t0_ = time.time()
+            p = subprocess.run(["z3-new", f"-T:{secs}", f"rlimit={budget.rl(timeout_ms, 'finite')}", path], capture_output=True, text=True, timeout=secs + 10)
             out = p.stdout.strip()
+            if out.startswith("timeout"):
+                budget.wall_hit("finite")
+            budget.log(f"finite{n}", out.split("\n")[0][:10], 0, time.time() - t0_, budget.rl(timeout_ms, "finite"))
+        except subprocess.TimeoutExpired:
+            budget.wall_hit("finite")
+            out = "unknown"
         except Exception:  # noqa
             out = "unknown"
         finally:
